@@ -10,57 +10,13 @@ Open Scope list_scope.
 Open Scope nat_scope.
 
 (* ------------------------------------------------------------------ ops_of when the history grows *)
-Definition ev_client (e : hevent) : node := match e with HInv c _ | HRes c _ => c end.
+Definition ops_acc (h : list hevent) : list op * nat := fold_left ops_step h ([], 0).
 
-Lemma find_res_snoc_inv : forall c' h p c m, find_res c' p (h ++ [HInv c m]) = find_res c' p h.
-Proof.
-  intros c' h. induction h as [|e h IH]; intros p c m; cbn.
-  - destruct (Nat.eqb c' c); reflexivity.
-  - destruct e as [c2 m2|c2 v2]; destruct (Nat.eqb c' c2); auto.
-Qed.
+Lemma ops_acc_snoc : forall h e, ops_acc (h ++ [e]) = ops_step (ops_acc h) e.
+Proof. intros. unfold ops_acc. rewrite fold_left_app. reflexivity. Qed.
 
-Lemma ops_from_snoc_inv : forall h pos c m,
-  ops_from pos (h ++ [HInv c m]) = ops_from pos h ++ [mkOp c m (pos + List.length h) None].
-Proof.
-  induction h as [|e h IH]; intros pos c m; cbn.
-  - rewrite Nat.add_0_r. reflexivity.
-  - replace (pos + S (List.length h)) with (S pos + List.length h) by lia.
-    destruct e as [c2 m2|c2 v2]; rewrite IH; cbn; [rewrite find_res_snoc_inv|]; reflexivity.
-Qed.
-
-(* no event of client c in h *)
-Definition quiet_of (c : node) (h : list hevent) : Prop := forall e, In e h -> ev_client e <> c.
-
-Lemma find_res_quiet : forall c h p, quiet_of c h -> find_res c p h = None.
-Proof.
-  intros c h. induction h as [|e h IH]; intros p Hq; cbn; [reflexivity|].
-  assert (He : ev_client e <> c) by (apply Hq; left; reflexivity).
-  destruct e as [c2 m2|c2 v2]; cbn in He; (destruct (Nat.eqb c c2) eqn:E; [apply Nat.eqb_eq in E; congruence|]);
-    apply IH; intros e' Hin; apply Hq; right; exact Hin.
-Qed.
-
-Lemma find_res_snoc_res_quiet : forall c h p v, quiet_of c h ->
-  find_res c p (h ++ [HRes c v]) = Some (p + List.length h, v).
-Proof.
-  intros c h. induction h as [|e h IH]; intros p v Hq; cbn.
-  - rewrite Nat.eqb_refl, Nat.add_0_r. reflexivity.
-  - assert (He : ev_client e <> c) by (apply Hq; left; reflexivity).
-    destruct e as [c2 m2|c2 v2]; cbn in He; (destruct (Nat.eqb c c2) eqn:E; [apply Nat.eqb_eq in E; congruence|]);
-      rewrite IH by (intros e' Hin; apply Hq; right; exact Hin); do 2 f_equal; lia.
-Qed.
-
-Lemma find_res_snoc_res_other : forall c' h p c v, c' <> c -> find_res c' p (h ++ [HRes c v]) = find_res c' p h.
-Proof.
-  intros c' h. induction h as [|e h IH]; intros p c v Hne; cbn.
-  - apply Nat.eqb_neq in Hne. rewrite Hne. reflexivity.
-  - destruct e as [c2 m2|c2 v2]; destruct (Nat.eqb c' c2); auto.
-Qed.
-
-Lemma find_res_snoc_some : forall c' h p e r, find_res c' p h = Some r -> find_res c' p (h ++ [e]) = Some r.
-Proof.
-  intros c' h. induction h as [|e0 h IH]; intros p e r H; cbn in *; [discriminate|].
-  destruct e0 as [c2 m2|c2 v2]; destruct (Nat.eqb c' c2); try discriminate; auto.
-Qed.
+Lemma ops_of_acc : forall h, ops_of h = fst (ops_acc h).
+Proof. reflexivity. Qed.
 
 (* ------------------------------------------------------------------ the monitor *)
 Inductive cstatus := CIdle | CInvoked (m : cmsg) | CLinearized (m : cmsg) (v : value).
@@ -103,3 +59,286 @@ Qed.
 
 Lemma proj_app : forall t1 t2, proj (t1 ++ t2) = proj t1 ++ proj t2.
 Proof. intros. unfold proj. apply flat_map_app. Qed.
+
+(* ------------------------------------------------------------------ the monitor's histories are linearizable *)
+(* replay of a linearization with the value computed for every operation *)
+Fixpoint rp (st : kvstore) (lr : list (op * value)) (fin : kvstore) : Prop :=
+  match lr with
+  | [] => fin = st
+  | (o, v) :: lr' => exists st', kv_apply st (op_msg o) = Some (v, st') /\
+                                (forall t vr, op_res o = Some (t, vr) -> vr = v) /\ rp st' lr' fin
+  end.
+
+Lemma rp_snoc : forall lr st fin o v st', rp st lr fin -> kv_apply fin (op_msg o) = Some (v, st') ->
+  (forall t vr, op_res o = Some (t, vr) -> vr = v) -> rp st (lr ++ [(o, v)]) st'.
+Proof.
+  induction lr as [|[o1 v1] lr IH]; intros st fin o v st' H Ha Hr; cbn in *.
+  - subst fin. exists st'. auto.
+  - destruct H as (st1 & H1 & H2 & H3). exists st1. split; [exact H1|]. split; [exact H2|]. eapply IH; eauto.
+Qed.
+
+Lemma rp_seq_ok : forall lr st fin, rp st lr fin -> seq_ok st (map fst lr).
+Proof.
+  induction lr as [|[o v] lr IH]; intros st fin H; cbn in *; [exact I|].
+  destruct H as (st' & H1 & H2 & H3). rewrite H1. split; [|eapply IH; eauto].
+  destruct (op_res o) as [[t vr]|] eqn:E; [|exact I]. symmetry. eapply H2. reflexivity.
+Qed.
+
+Lemma respects_rt_snoc : forall l o, respects_rt l -> (forall o1, In o1 l -> ~ rt_before o o1) -> respects_rt (l ++ [o]).
+Proof.
+  induction l as [|a l IH]; intros o H Ho; cbn in *.
+  - split; [intros o' [] | exact I].
+  - destruct H as [H1 H2]. split.
+    + intros o' Hin. apply in_app_or in Hin. destruct Hin as [Hin|[<-|[]]]; [apply H1; exact Hin | apply Ho; left; reflexivity].
+    + apply IH; [exact H2 | intros o1 Hin; apply Ho; right; exact Hin].
+Qed.
+
+Definition fres (c : node) (t : nat) (v : value) (p : op * value) : op * value := (set_res c t v (fst p), snd p).
+
+Lemma set_res_client : forall c t v o, op_client (set_res c t v o) = op_client o.
+Proof. intros. unfold set_res. destruct (op_res o); [reflexivity|]. destruct (Nat.eqb (op_client o) c); reflexivity. Qed.
+Lemma set_res_msg : forall c t v o, op_msg (set_res c t v o) = op_msg o.
+Proof. intros. unfold set_res. destruct (op_res o); [reflexivity|]. destruct (Nat.eqb (op_client o) c); reflexivity. Qed.
+Lemma set_res_inv' : forall c t v o, op_inv (set_res c t v o) = op_inv o.
+Proof. intros. unfold set_res. destruct (op_res o); [reflexivity|]. destruct (Nat.eqb (op_client o) c); reflexivity. Qed.
+Lemma set_res_same : forall c t v o, op_res o <> None -> set_res c t v o = o.
+Proof. intros c t v o H. unfold set_res. destruct (op_res o); [reflexivity | congruence]. Qed.
+Lemma set_res_other : forall c t v o, op_client o <> c -> set_res c t v o = o.
+Proof. intros c t v o H. unfold set_res. destruct (op_res o); [reflexivity|]. apply Nat.eqb_neq in H. rewrite H. reflexivity. Qed.
+Lemma set_res_hit : forall c t v o, op_client o = c -> op_res o = None -> op_res (set_res c t v o) = Some (t, v).
+Proof. intros c t v o H1 H2. unfold set_res. rewrite H2, H1, Nat.eqb_refl. reflexivity. Qed.
+
+(* the invariant of the induction *)
+Record J (mo : mon) (ops : list op) (pos : nat) (lr : list (op * value)) : Prop := {
+  j_nd : NoDup (map op_inv ops);
+  j_nd_l : NoDup (map op_inv (map fst lr));
+  j_in : forall p, In p lr -> In (fst p) ops;
+  j_done : forall o, In o ops -> op_res o <> None -> In o (map fst lr);
+  j_rt : respects_rt (map fst lr);
+  j_rp : rp kv_init lr (mo_store mo);
+  j_pos : forall o, In o ops -> op_inv o < pos /\ (forall t v, op_res o = Some (t, v) -> t < pos);
+  j_cl : forall c,
+    match mo_st mo c with
+    | CIdle => forall o, In o ops -> op_client o = c -> op_res o <> None
+    | CInvoked m => exists o, In o ops /\ op_client o = c /\ op_res o = None /\ op_msg o = m /\ ~ In o (map fst lr) /\
+                              forall o', In o' ops -> op_client o' = c -> op_res o' = None -> o' = o
+    | CLinearized m v => exists o, In o ops /\ op_client o = c /\ op_res o = None /\ op_msg o = m /\ In (o, v) lr /\
+                              forall o', In o' ops -> op_client o' = c -> op_res o' = None -> o' = o
+    end }.
+
+Lemma J_init : J mon_init [] 0 [].
+Proof. constructor; cbn; try (constructor; fail); try easy. Qed.
+
+Lemma upd_st_same : forall f c x, upd_st f c x c = x.
+Proof. intros. unfold upd_st. rewrite Nat.eqb_refl. reflexivity. Qed.
+Lemma upd_st_other : forall f c x c', c' <> c -> upd_st f c x c' = f c'.
+Proof. intros. unfold upd_st. apply Nat.eqb_neq in H. rewrite H. reflexivity. Qed.
+
+Lemma NoDup_snoc_nat : forall (l : list nat) x, NoDup l -> ~ In x l -> NoDup (l ++ [x]).
+Proof.
+  induction l as [|a l IH]; intros x Hnd Hni; cbn.
+  - constructor; [intros []|constructor].
+  - inversion Hnd; subst. constructor.
+    + intros Hin. apply in_app_or in Hin. destruct Hin as [Hin|[->|[]]]; [tauto|]. apply Hni. left. reflexivity.
+    + apply IH; [assumption|]. intros Hin. apply Hni. right. exact Hin.
+Qed.
+
+Lemma inv_unique : forall ops o1 o2, NoDup (map op_inv ops) -> In o1 ops -> In o2 ops -> op_inv o1 = op_inv o2 -> o1 = o2.
+Proof.
+  induction ops as [|a ops IH]; intros o1 o2 Hnd H1 H2 E; [destruct H1|].
+  cbn in Hnd. inversion Hnd as [|? ? Hn Hnd']; subst.
+  destruct H1 as [<-|H1]; destruct H2 as [<-|H2]; auto.
+  - exfalso. apply Hn. rewrite E. apply in_map. exact H2.
+  - exfalso. apply Hn. rewrite <- E. apply in_map. exact H1.
+Qed.
+
+(* ---- invocation *)
+Lemma J_inv : forall mo ops pos lr c m,
+  J mo ops pos lr -> mo_st mo c = CIdle ->
+  J (mkMon (mo_store mo) (upd_st (mo_st mo) c (CInvoked m))) (ops ++ [mkOp c m pos None]) (S pos) lr.
+Proof.
+  intros mo ops pos lr c m Hj Hc. destruct Hj as [J1 J2 J3 J4 J5 J6 J7 J8].
+  set (onew := mkOp c m pos None).
+  assert (Hfresh : ~ In pos (map op_inv ops)).
+  { intros Hin. apply in_map_iff in Hin. destruct Hin as (o & E & Hin). destruct (J7 o Hin) as [H _]. lia. }
+  constructor; cbn [mo_store mo_st].
+  - rewrite map_app. cbn. apply NoDup_snoc_nat; assumption.
+  - exact J2.
+  - intros p Hp. apply in_or_app. left. apply J3. exact Hp.
+  - intros o Hin Hr. apply in_app_or in Hin. destruct Hin as [Hin|[<-|[]]]; [apply J4; assumption | cbn in Hr; congruence].
+  - exact J5.
+  - exact J6.
+  - intros o Hin. apply in_app_or in Hin. destruct Hin as [Hin|[<-|[]]].
+    + destruct (J7 o Hin) as [H1 H2]. split; [lia|]. intros t v E. specialize (H2 t v E). lia.
+    + cbn. split; [lia | intros; discriminate].
+  - intros c'. destruct (Nat.eq_dec c' c) as [->|Hne].
+    + rewrite upd_st_same. exists onew. split; [apply in_or_app; right; left; reflexivity|].
+      split; [reflexivity|]. split; [reflexivity|]. split; [reflexivity|]. split.
+      * intros Hin. apply in_map_iff in Hin. destruct Hin as (p & E & Hp). apply J3 in Hp. rewrite E in Hp.
+        apply Hfresh. change pos with (op_inv onew). apply in_map. exact Hp.
+      * intros o' Hin Hc' Hr. apply in_app_or in Hin. destruct Hin as [Hin|[<-|[]]]; [|reflexivity].
+        exfalso. pose proof (J8 c) as H. rewrite Hc in H. apply (H o' Hin Hc' Hr).
+    + rewrite upd_st_other by exact Hne. pose proof (J8 c') as H. destruct (mo_st mo c') as [|m'|m' v'].
+      * intros o Hin Hco. apply in_app_or in Hin. destruct Hin as [Hin|[<-|[]]]; [apply H; assumption | cbn in Hco; congruence].
+      * destruct H as (o & H1 & H2 & H3 & H4 & H5 & H6). exists o. split; [apply in_or_app; left; exact H1|].
+        repeat split; auto. intros o' Hin Hco Hr. apply in_app_or in Hin. destruct Hin as [Hin|[<-|[]]]; [apply H6; assumption | cbn in Hco; congruence].
+      * destruct H as (o & H1 & H2 & H3 & H4 & H5 & H6). exists o. split; [apply in_or_app; left; exact H1|].
+        repeat split; auto. intros o' Hin Hco Hr. apply in_app_or in Hin. destruct Hin as [Hin|[<-|[]]]; [apply H6; assumption | cbn in Hco; congruence].
+Qed.
+
+(* ---- linearization point *)
+Lemma J_lin : forall mo ops pos lr c m v st',
+  J mo ops pos lr -> mo_st mo c = CInvoked m -> kv_apply (mo_store mo) m = Some (v, st') ->
+  exists lr', J (mkMon st' (upd_st (mo_st mo) c (CLinearized m v))) ops pos lr'.
+Proof.
+  intros mo ops pos lr c m v st' Hj Hc Ha. destruct Hj as [J1 J2 J3 J4 J5 J6 J7 J8].
+  pose proof (J8 c) as H. rewrite Hc in H. destruct H as (o & H1 & H2 & H3 & H4 & H5 & H6).
+  exists (lr ++ [(o, v)]).
+  assert (Hninv : ~ In (op_inv o) (map op_inv (map fst lr))).
+  { intros Hin. apply in_map_iff in Hin. destruct Hin as (o1 & E & Hin1). apply H5.
+    assert (In o1 ops). { apply in_map_iff in Hin1. destruct Hin1 as (p & <- & Hp). apply J3. exact Hp. }
+    rewrite <- (inv_unique ops o1 o J1 H H1 E). exact Hin1. }
+  constructor; cbn [mo_store mo_st].
+  - exact J1.
+  - rewrite !map_app. cbn. apply NoDup_snoc_nat; assumption.
+  - intros p Hp. apply in_app_or in Hp. destruct Hp as [Hp|[<-|[]]]; [apply J3; exact Hp | exact H1].
+  - intros o1 Hin Hr. rewrite map_app. apply in_or_app. left. apply J4; assumption.
+  - rewrite map_app. cbn. apply respects_rt_snoc; [exact J5|]. intros o1 _. unfold rt_before. rewrite H3. tauto.
+  - eapply rp_snoc; [exact J6 | rewrite H4; exact Ha | intros t vr E; rewrite H3 in E; discriminate].
+  - exact J7.
+  - intros c'. destruct (Nat.eq_dec c' c) as [->|Hne].
+    + rewrite upd_st_same. exists o. repeat split; auto. apply in_or_app. right. left. reflexivity.
+    + rewrite upd_st_other by exact Hne. pose proof (J8 c') as H. destruct (mo_st mo c') as [|m'|m' v'].
+      * exact H.
+      * destruct H as (o1 & G1 & G2 & G3 & G4 & G5 & G6). exists o1. repeat split; auto.
+        rewrite map_app. intros Hin. apply in_app_or in Hin. destruct Hin as [Hin|[E|[]]]; [tauto|].
+        cbn in E. subst o1. congruence.
+      * destruct H as (o1 & G1 & G2 & G3 & G4 & G5 & G6). exists o1. repeat split; auto. apply in_or_app. left. exact G5.
+Qed.
+
+(* ---- response *)
+Lemma nodup_map_inj : forall A (g : A -> nat) (l : list A) a b, NoDup (map g l) -> In a l -> In b l -> g a = g b -> a = b.
+Proof.
+  induction l as [|x l IH]; intros a b Hnd H1 H2 E; [destruct H1|].
+  cbn in Hnd. inversion Hnd as [|? ? Hn Hnd']; subst.
+  destruct H1 as [<-|H1]; destruct H2 as [<-|H2]; auto.
+  - exfalso. apply Hn. rewrite E. apply in_map. exact H2.
+  - exfalso. apply Hn. rewrite <- E. apply in_map. exact H1.
+Qed.
+
+Lemma respects_rt_map : forall (f : op -> op) l pos,
+  (forall o, op_inv (f o) = op_inv o) ->
+  (forall o, In o l -> op_inv o < pos) ->
+  (forall o t v, op_res (f o) = Some (t, v) -> op_res o = Some (t, v) \/ t = pos) ->
+  respects_rt l -> respects_rt (map f l).
+Proof.
+  intros f l pos Hinv Hpos Hres. induction l as [|a l IH]; intros H; cbn in *; [exact I|].
+  destruct H as [H1 H2]. split; [|apply IH; [intros o Ho; apply Hpos; right; exact Ho | exact H2]].
+  intros o' Hin. apply in_map_iff in Hin. destruct Hin as (o0 & <- & Hin). unfold rt_before.
+  destruct (op_res (f o0)) as [[t v]|] eqn:E; [|tauto]. rewrite Hinv.
+  destruct (Hres o0 t v E) as [E0| ->].
+  - specialize (H1 o0 Hin). unfold rt_before in H1. rewrite E0 in H1. exact H1.
+  - assert (op_inv a < pos) by (apply Hpos; left; reflexivity). lia.
+Qed.
+
+Lemma J_res : forall mo ops pos lr c m v,
+  J mo ops pos lr -> mo_st mo c = CLinearized m v ->
+  J (mkMon (mo_store mo) (upd_st (mo_st mo) c CIdle)) (map (set_res c pos v) ops) (S pos) (map (fres c pos v) lr).
+Proof.
+  intros mo ops pos lr c m v Hj Hc. destruct Hj as [J1 J2 J3 J4 J5 J6 J7 J8].
+  pose proof (J8 c) as H. rewrite Hc in H. destruct H as (o & H1 & H2 & H3 & H4 & H5 & H6).
+  assert (Hfst : map fst (map (fres c pos v) lr) = map (set_res c pos v) (map fst lr)).
+  { rewrite !map_map. reflexivity. }
+  assert (Hinvs : forall l, map op_inv (map (set_res c pos v) l) = map op_inv l).
+  { intros l. rewrite map_map. apply map_ext. intros a. apply set_res_inv'. }
+  constructor; cbn [mo_store mo_st].
+  - rewrite Hinvs. exact J1.
+  - rewrite Hfst, Hinvs. exact J2.
+  - intros p Hp. apply in_map_iff in Hp. destruct Hp as (p0 & <- & Hp0). cbn. apply in_map. apply J3. exact Hp0.
+  - intros o' Hin Hr. rewrite Hfst. apply in_map_iff in Hin. destruct Hin as (o0 & <- & Hin0).
+    apply in_map. destruct (op_res o0) as [r|] eqn:E0.
+    + apply J4; [exact Hin0 | congruence].
+    + destruct (Nat.eq_dec (op_client o0) c) as [Ec|Nc].
+      * rewrite (H6 o0 Hin0 Ec E0). apply in_map_iff. exists (o, v). auto.
+      * exfalso. rewrite (set_res_other c pos v o0 Nc) in Hr. congruence.
+  - rewrite Hfst. apply (respects_rt_map _ _ pos); auto.
+    + intros a. apply set_res_inv'.
+    + intros a Ha. apply in_map_iff in Ha. destruct Ha as (p & <- & Hp). apply (J7 _ (J3 p Hp)).
+    + intros a t v0 E. unfold set_res in E. destruct (op_res a) eqn:Ea; [left; rewrite <- E; rewrite Ea; reflexivity|].
+      destruct (Nat.eqb (op_client a) c); cbn in E; [inversion E; auto | congruence].
+  - (* replay: only the response of o changes, to the value computed at its linearization point *)
+    assert (G : forall l st fin, (forall p, In p l -> In p lr) -> rp st l fin -> rp st (map (fres c pos v) l) fin).
+    { induction l as [|[o1 v1] l IH]; intros st fin Hsub Hrp; cbn in *; [exact Hrp|].
+      destruct Hrp as (st1 & R1 & R2 & R3). exists st1. rewrite set_res_msg. split; [exact R1|]. split.
+      - intros t vr E. unfold set_res in E. destruct (op_res o1) eqn:E1.
+        + apply (R2 t vr). rewrite <- E. rewrite E1. reflexivity.
+        + destruct (Nat.eqb (op_client o1) c) eqn:Ec; cbn in E; [|congruence]. inversion E; subst vr.
+          apply Nat.eqb_eq in Ec.
+          assert (Hl : In (o1, v1) lr) by (apply Hsub; left; reflexivity).
+          assert (Eo : o1 = o) by (apply H6; [apply (J3 _ Hl) | exact Ec | exact E1]). subst o1.
+          assert (Ep : (o, v1) = (o, v)).
+          { apply (nodup_map_inj _ (fun p => op_inv (fst p)) lr); auto. rewrite <- map_map. exact J2. }
+          inversion Ep. reflexivity.
+      - apply IH; [intros p Hp; apply Hsub; right; exact Hp | exact R3]. }
+    apply G; auto.
+  - intros o' Hin. apply in_map_iff in Hin. destruct Hin as (o0 & <- & Hin0). destruct (J7 o0 Hin0) as [P1 P2].
+    rewrite set_res_inv'. split; [lia|]. intros t v0 E. unfold set_res in E. destruct (op_res o0) eqn:E0.
+    + rewrite E0 in E. specialize (P2 t v0 E). lia.
+    + destruct (Nat.eqb (op_client o0) c); cbn in E; [inversion E; lia | congruence].
+  - intros c'. destruct (Nat.eq_dec c' c) as [->|Hne].
+    + rewrite upd_st_same. intros o' Hin Hco. apply in_map_iff in Hin. destruct Hin as (o0 & <- & Hin0).
+      rewrite set_res_client in Hco. destruct (op_res o0) eqn:E0.
+      * rewrite set_res_same by congruence. congruence.
+      * rewrite (set_res_hit c pos v o0 Hco E0). discriminate.
+    + rewrite upd_st_other by exact Hne. pose proof (J8 c') as H. destruct (mo_st mo c') as [|m'|m' v'].
+      * intros o' Hin Hco. apply in_map_iff in Hin. destruct Hin as (o0 & <- & Hin0). rewrite set_res_client in Hco.
+        rewrite set_res_other by congruence. apply H; assumption.
+      * destruct H as (o1 & G1 & G2 & G3 & G4 & G5 & G6).
+        assert (Eo1 : set_res c pos v o1 = o1) by (apply set_res_other; congruence).
+        exists o1. split; [rewrite <- Eo1; apply in_map; exact G1|]. repeat split; auto.
+        -- rewrite Hfst. intros Hin. apply in_map_iff in Hin. destruct Hin as (o2 & E2 & Hin2). apply G5.
+           assert (In o2 ops). { apply in_map_iff in Hin2. destruct Hin2 as (p & <- & Hp). apply J3. exact Hp. }
+           assert (Eo2 : o2 = o1).
+           { apply (inv_unique ops); auto. rewrite <- E2. symmetry. apply set_res_inv'. }
+           rewrite <- Eo2. exact Hin2.
+        -- intros o' Hin Hco Hr. apply in_map_iff in Hin. destruct Hin as (o0 & <- & Hin0). rewrite set_res_client in Hco.
+           rewrite set_res_other in * by congruence. apply G6; assumption.
+      * destruct H as (o1 & G1 & G2 & G3 & G4 & G5 & G6).
+        assert (Eo1 : set_res c pos v o1 = o1) by (apply set_res_other; congruence).
+        exists o1. split; [rewrite <- Eo1; apply in_map; exact G1|]. repeat split; auto.
+        -- apply in_map_iff. exists (o1, v'). split; [unfold fres; cbn; rewrite Eo1; reflexivity | exact G5].
+        -- intros o' Hin Hco Hr. apply in_map_iff in Hin. destruct Hin as (o0 & <- & Hin0). rewrite set_res_client in Hco.
+           rewrite set_res_other in * by congruence. apply G6; assumption.
+Qed.
+
+(* ------------------------------------------------------------------ the theorem *)
+Lemma mon_J : forall t mo, mon_run mon_init t = Some mo ->
+  exists lr, J mo (fst (ops_acc (proj t))) (snd (ops_acc (proj t))) lr.
+Proof.
+  intros t. induction t as [|e t IH] using rev_ind; intros mo Hr.
+  - cbn in Hr. inversion Hr; subst. exists []. apply J_init.
+  - rewrite mon_run_app in Hr. destruct (mon_run mon_init t) as [mo0|] eqn:E0; [|discriminate].
+    destruct (IH mo0 eq_refl) as (lr & Hj). cbn in Hr. destruct (mon_step mo0 e) as [mo1|] eqn:Es; [|discriminate].
+    inversion Hr; subst mo1. clear Hr. rewrite proj_app. cbn [proj flat_map]. rewrite app_nil_r.
+    destruct e as [c m|c|c v]; cbn [proj_ev]; cbn in Es.
+    + destruct (mo_st mo0 c) eqn:Ec; try discriminate. inversion Es; subst mo.
+      rewrite ops_acc_snoc. cbn [ops_step fst snd]. exists lr. apply J_inv; assumption.
+    + rewrite app_nil_r. destruct (mo_st mo0 c) as [|m|m v] eqn:Ec; try discriminate.
+      destruct (kv_apply (mo_store mo0) m) as [[v st']|] eqn:Ea; [|discriminate]. inversion Es; subst mo.
+      eapply J_lin; eauto.
+    + destruct (mo_st mo0 c) as [|m|m v'] eqn:Ec; try discriminate.
+      destruct (String.eqb v v') eqn:Ev; [|discriminate]. apply String.eqb_eq in Ev. subst v'. inversion Es; subst mo.
+      rewrite ops_acc_snoc. cbn [ops_step fst snd]. exists (map (fres c (snd (ops_acc (proj t))) v) lr).
+      eapply J_res; eauto.
+Qed.
+
+Theorem mon_linearizable : forall t mo, mon_run mon_init t = Some mo -> linearizable (proj t).
+Proof.
+  intros t mo Hr. destruct (mon_J t mo Hr) as (lr & [J1 J2 J3 J4 J5 J6 J7 J8]).
+  exists (map fst lr). split; [|split].
+  - split; [exact J2|]. split.
+    + intros o Hin. apply in_map_iff in Hin. destruct Hin as (p & <- & Hp). apply J3. exact Hp.
+    + intros o Hin Hr0. apply J4; assumption.
+  - exact J5.
+  - eapply rp_seq_ok. exact J6.
+Qed.
